@@ -82,6 +82,10 @@ class C07Oracle(Oracle):
             # whatever the state says: the session's transport is gone and nothing is left to run - the session has ended
             v.append(f"C07:count:the established session's transport is closed and the loop is quiet, but the stop callback was never invoked "
                      f"(state reads {w.state()})")
+        if n == 0 and w.mon.ever_connected and not w.loop.busy() and w.write_faults_raised:
+            # a write error is a close cause whichever exception class the transport used for it
+            v.append(f"C07:count:the transport refused a write of the established session and the loop is quiet, but the stop callback was "
+                     f"never invoked (state reads {w.state()})")
         return v
 
     def finish(self, w: LifeWorld) -> list[str]:
@@ -94,7 +98,7 @@ class C07Oracle(Oracle):
 
     def key(self, w: LifeWorld) -> Any:
         c = w.c07  # type: ignore[attr-defined]
-        return (bool(c.get("disc_effective")), tuple(sorted((k, v) for k, v in self.facts(w).items())), len(c["viol"]))
+        return (bool(c.get("disc_effective")), tuple(sorted((k, v) for k, v in self.facts(w).items())), len(c["viol"]), w.write_faults_raised > 0)
 
 
 class C07Harness(LifeHarness):
@@ -117,6 +121,7 @@ def factory(noise: bool, seed: str, sub_raises: str | None = None) -> LifeHarnes
         misuse=False,
         oracles=(C07Oracle(),),
         subscriber_raises=sub_raises,
+        faults=("wf:sync", "wf:async", "wf:rt"),
     )
 
 
